@@ -504,4 +504,690 @@ theorem skipWhite_re (a b : Bytes) (h : H) (hs : h.s = a ++ b) (hlt : (skipWhite
   rw [hsp, get_lt a b _ hlt]
   rfl
 
+theorem stateBeforeAttributeValue_loc (a b : Bytes) (h : H) (hs : h.s = a ++ b) (hp : h.pos ≤ h.s.length) :
+    Loc a b (stateBeforeAttributeValue h) (stateBeforeAttributeValue (re a b h)) := by
+  obtain ⟨e1, e2, e3, e4, e5⟩ := skipWhite_spec h hp
+  by_cases hlt : (skipWhite h).1.pos < a.length
+  · unfold stateBeforeAttributeValue
+    rw [skipWhite_re a b h hs hlt]
+    generalize skipWhite h = sw at e1 e2 e3 e4 e5 hlt ⊢
+    obtain ⟨h1, ch⟩ := sw
+    simp only at e1 e2 e3 e4 e5 hlt ⊢
+    have hs1 : h1.s = a ++ b := by rw [e1, hs]
+    cases ch with
+    | none => exact loc_false a b _ _
+    | some c =>
+      have hlt1 : h1.pos < h1.s.length := by rw [e1]; exact getElem?_some_lt e4.symm
+      simp only []
+      split
+      · exact stateAttributeValueQuote_loc 34 a b h1 hs1 (Or.inl hlt1)
+      · split
+        · exact stateAttributeValueQuote_loc 39 a b h1 hs1 (Or.inl hlt1)
+        · split
+          · exact stateAttributeValueQuote_loc 96 a b h1 hs1 (Or.inl hlt1)
+          · exact stateAttributeValueNoQuote_loc a b h1 hs1 hlt
+  · refine loc_vac a b (skipWhite h).1.pos 2 h _ _ ?_ (by omega)
+    have := stateBeforeAttributeValue_ord h hp
+    unfold stateBeforeAttributeValue at this ⊢
+    generalize skipWhite h = sw at e1 e2 e3 e4 e5 hlt this ⊢
+    obtain ⟨h1, ch⟩ := sw
+    simp only at e1 e2 e3 e4 e5 hlt this ⊢
+    cases ch with
+    | none => exact ord_false _ _ _ _
+    | some c =>
+      have hlt1 : h1.pos < h1.s.length := by rw [e1]; exact getElem?_some_lt e4.symm
+      have hq : ∀ q, Ord h1.pos 2 h (stateAttributeValueQuote q h1) := fun q =>
+        Ord.mono (h0 := h) e1 (Nat.le_refl _) (by omega) (stateAttributeValueQuote_ord q h1 (Or.inl hlt1))
+      simp only []
+      split
+      · exact hq _
+      · split
+        · exact hq _
+        · split
+          · exact hq _
+          · exact Ord.mono (h0 := h) e1 (Nat.le_refl _) (by omega) (stateAttributeValueNoQuote_ord h1 (Nat.le_of_lt hlt1))
+
+/-! ### `<!` dispatch: doctype / CDATA / comment / bogus comment -/
+
+theorem win_get (s : Bytes) (q n k : Nat) (hk : k < n) : ((s.drop q).take n)[k]? = s[q + k]? := by
+  rw [List.getElem?_take_of_lt hk, List.getElem?_drop]
+
+theorem no_gt_doctype (w : Bytes) (k : Nat) (hk : w[k]? = some 62) : (goLowerAscii w == doctypeLower) = false := by
+  cases hc : goLowerAscii w == doctypeLower with
+  | false => rfl
+  | true =>
+    exfalso
+    have he : goLowerAscii w = doctypeLower := by simpa using hc
+    have h1 : (goLowerAscii w)[k]? = some 62 := by
+      unfold goLowerAscii; rw [List.getElem?_map, hk]; rfl
+    rw [he] at h1
+    have : (62 : UInt8) ∈ doctypeLower := List.mem_of_getElem? h1
+    revert this; decide
+
+theorem no_gt_cdata (w : Bytes) (k : Nat) (hk : w[k]? = some 62) : (w == cdataOpen) = false := by
+  cases hc : w == cdataOpen with
+  | false => rfl
+  | true =>
+    exfalso
+    have he : w = cdataOpen := by simpa using hc
+    rw [he] at hk
+    have : (62 : UInt8) ∈ cdataOpen := List.mem_of_getElem? hk
+    revert this; decide
+
+theorem take_ins (a b : Bytes) (q n : Nat) (h : q + n ≤ a.length) :
+    ((a ++ 0 :: b).drop q).take n = ((a ++ b).drop q).take n := by
+  rw [drop_le a (0 :: b) q (by omega), drop_le a b q (by omega)]
+  rw [List.take_append_of_le_length (by simp; omega), List.take_append_of_le_length (by simp; omega)]
+
+/-- the token type of a terminator-searching state -/
+theorem term_ty (f : H → M (Bool × H)) (T : Bytes → Nat → Nat → Prop) (ty : Ty)
+    (hF : ∀ h : H, h.pos ≤ h.s.length → ∀ i wd, T h.s i wd → h.pos ≤ i → (∀ j wd', h.pos ≤ j → j < i → ¬ T h.s j wd') →
+      f h = foundAt h ty i wd)
+    (hR : ∀ h : H, h.pos ≤ h.s.length → (∀ i wd, h.pos ≤ i → ¬ T h.s i wd) → ∃ x, f h = .ok (true, x) ∧ x.state = .eof ∧ x.tokType = ty)
+    (h : H) (hp : h.pos ≤ h.s.length) (h1 : H) (hn : f h = .ok (true, h1)) : h1.tokType = ty := by
+  by_cases hex : ∃ i, ∃ wd, h.pos ≤ i ∧ T h.s i wd
+  · obtain ⟨i0, hi0⟩ := hex
+    obtain ⟨i, ⟨wd, hpi, hTi⟩, hleast⟩ := exists_least (fun i => ∃ wd, h.pos ≤ i ∧ T h.s i wd) i0 hi0
+    rw [hF h hp i wd hTi hpi (fun j wd' hj hji hTj => hleast j hji ⟨wd', hj, hTj⟩)] at hn
+    unfold foundAt at hn
+    simp only [Except.ok.injEq, Prod.mk.injEq, true_and] at hn
+    subst hn; rfl
+  · obtain ⟨x, hx, _, hxt⟩ := hR h hp (fun i wd hpi hTi => hex ⟨i, wd, hpi, hTi⟩)
+    rw [hx] at hn
+    simp only [Except.ok.injEq, Prod.mk.injEq, true_and] at hn
+    subst hn; exact hxt
+
+theorem stateCData_ty (h : H) (hp : h.pos ≤ h.s.length) (h1 : H) (hn : stateCData h = .ok (true, h1)) : h1.tokType = .dataText :=
+  term_ty stateCData (fun s i wd => Term3 s 93 93 62 i ∧ wd = 3) .dataText
+    (fun h hp i wd hT hpi hl => by
+      obtain ⟨hT, rfl⟩ := hT
+      exact (cdata_first_terminator h hp).1 i hT hpi (fun j hj hji hTj => hl j 3 hj hji ⟨hTj, rfl⟩))
+    (fun h hp hno => ⟨_, (cdata_first_terminator h hp).2 (fun i hpi hT => hno i 3 hpi ⟨hT, rfl⟩), rfl, rfl⟩) h hp h1 hn
+
+theorem stateComment_ty (h : H) (hp : h.pos ≤ h.s.length) (h1 : H) (hn : stateComment h = .ok (true, h1)) : h1.tokType = .tagComment :=
+  term_ty stateComment (fun s i wd => ∃ n, ComEnd s i n ∧ wd = n + 3) .tagComment
+    (fun h hp i wd hT hpi hl => by
+      obtain ⟨n, hT, rfl⟩ := hT
+      exact (comment_first_terminator h hp).1 i n hT hpi (fun j m hj hji hTj => hl j (m + 3) hj hji ⟨m, hTj, rfl⟩))
+    (fun h hp hno => ⟨_, (comment_first_terminator h hp).2 (fun i n hpi hT => hno i (n + 3) hpi ⟨n, hT, rfl⟩), rfl, rfl⟩) h hp h1 hn
+
+theorem stateBogusComment_res (h : H) (hp : h.pos ≤ h.s.length) (h1 : H) (hn : stateBogusComment h = .ok (true, h1)) :
+    h1.tokType = .tagComment ∧ (h1.state ≠ .eof → ∃ i, h1.pos = h.pos + i + 1 ∧ h.s[h.pos + i]? = some 62) := by
+  unfold stateBogusComment at hn
+  simp only [offFrom_ok hp, bind, Except.bind, pure, Except.pure] at hn
+  cases hi : indexByte (h.s.drop h.pos) 62 with
+  | none =>
+    rw [hi] at hn
+    simp only [Except.ok.injEq, Prod.mk.injEq, true_and] at hn; subst hn
+    exact ⟨rfl, fun hne => absurd rfl hne⟩
+  | some i =>
+    rw [hi] at hn
+    simp only [Except.ok.injEq, Prod.mk.injEq, true_and] at hn; subst hn
+    have := ((indexByte_some_iff _ _ _).mp hi).1
+    rw [List.getElem?_drop] at this
+    exact ⟨rfl, fun _ => ⟨i, rfl, this⟩⟩
+
+theorem stateDoctype_res (h : H) (hp : h.pos ≤ h.s.length) (h1 : H) (hn : stateDoctype h = .ok (true, h1)) :
+    h1.tokType = .docType ∧ (h1.state ≠ .eof → ∃ i, h1.pos = h.pos + i + 1 ∧ h.s[h.pos + i]? = some 62) := by
+  unfold stateDoctype at hn
+  simp only [offFrom_ok hp, bind, Except.bind, pure, Except.pure] at hn
+  cases hi : indexByte (h.s.drop h.pos) 62 with
+  | none =>
+    rw [hi] at hn
+    simp only [Except.ok.injEq, Prod.mk.injEq, true_and] at hn; subst hn
+    exact ⟨rfl, fun hne => absurd rfl hne⟩
+  | some i =>
+    rw [hi] at hn
+    simp only [Except.ok.injEq, Prod.mk.injEq, true_and] at hn; subst hn
+    have := ((indexByte_some_iff _ _ _).mp hi).1
+    rw [List.getElem?_drop] at this
+    exact ⟨rfl, fun _ => ⟨i, rfl, this⟩⟩
+
+theorem no_byte_doctype (w : Bytes) (k : Nat) (c : UInt8) (hk : w[k]? = some c) (hc : lowerAscii c ∉ doctypeLower) :
+    (goLowerAscii w == doctypeLower) = false := by
+  cases hcmp : goLowerAscii w == doctypeLower with
+  | false => rfl
+  | true =>
+    exfalso
+    have he : goLowerAscii w = doctypeLower := by simpa using hcmp
+    have h1 : (goLowerAscii w)[k]? = some (lowerAscii c) := by
+      unfold goLowerAscii; rw [List.getElem?_map, hk]; rfl
+    rw [he] at h1
+    exact hc (List.mem_of_getElem? h1)
+
+theorem no_byte_cdata (w : Bytes) (k : Nat) (c : UInt8) (hk : w[k]? = some c) (hc : c ∉ cdataOpen) : (w == cdataOpen) = false := by
+  cases hcmp : w == cdataOpen with
+  | false => rfl
+  | true =>
+    exfalso
+    have he : w = cdataOpen := by simpa using hcmp
+    rw [he] at hk
+    exact hc (List.mem_of_getElem? hk)
+
+/-- on the input with the NUL, `<!` followed (before the insertion point) by a byte that is neither a letter of
+`doctype` nor of `[CDATA[` is not a doctype / CDATA section -/
+theorem markup_re_tests (a b : Bytes) (h : H) (k : Nat) (c : UInt8) (hk7 : k < 7) (hkm : h.pos + k < a.length)
+    (hc : (a ++ b)[h.pos + k]? = some c) (h1 : lowerAscii c ∉ doctypeLower) (h2 : c ∉ cdataOpen) :
+    (goLowerAscii (((a ++ 0 :: b).drop h.pos).take 7) == doctypeLower) = false ∧
+    ((((a ++ 0 :: b).drop h.pos).take 7) == cdataOpen) = false := by
+  have hw : (((a ++ 0 :: b).drop h.pos).take 7)[k]? = some c := by
+    rw [win_get _ _ _ _ hk7, get_lt a b _ hkm]; exact hc
+  exact ⟨no_byte_doctype _ k c hw h1, no_byte_cdata _ k c hw h2⟩
+
+theorem stateMarkupDeclarationOpen_loc (a b : Bytes) (h : H) (hs : h.s = a ++ b) (hp : h.pos ≤ h.s.length) :
+    Loc a b (stateMarkupDeclarationOpen h) (stateMarkupDeclarationOpen (re a b h)) := by
+  have hl : (a ++ b).length = a.length + b.length := by simp
+  by_cases hq7 : h.pos + 7 ≤ a.length
+  · -- both windows lie inside `a`
+    have hl' : h.s.length = a.length + b.length := by rw [hs, hl]
+    unfold stateMarkupDeclarationOpen
+    simp only [re_s, re_pos, take_ins a b h.pos 7 hq7, take_ins a b h.pos 2 (by omega), len_ins, ← hs]
+    have r7 : decide (h.s.length - h.pos ≥ 7) = true := by simp; omega
+    have r7' : decide (h.s.length + 1 - h.pos ≥ 7) = true := by simp; omega
+    have r2 : decide (h.s.length - h.pos ≥ 2) = true := by simp; omega
+    have r2' : decide (h.s.length + 1 - h.pos ≥ 2) = true := by simp; omega
+    simp only [r7, r7', r2, r2', Bool.true_and]
+    by_cases c1 : (goLowerAscii ((h.s.drop h.pos).take 7) == doctypeLower) = true
+    · simp only [c1, ↓reduceIte]; exact stateDoctype_loc a b h hs hp
+    · simp only [c1, Bool.false_eq_true, ↓reduceIte]
+      by_cases c2 : (((h.s.drop h.pos).take 7) == cdataOpen) = true
+      · simp only [c2, ↓reduceIte]
+        exact stateCData_loc a b { h with pos := h.pos + 7 } hs (by simp only [hl']; omega)
+      · simp only [c2, Bool.false_eq_true, ↓reduceIte]
+        by_cases c3 : (((h.s.drop h.pos).take 2) == [45, 45]) = true
+        · simp only [c3, ↓reduceIte]
+          exact stateComment_loc a b { h with pos := h.pos + 2 } hs (by simp only [hl']; omega)
+        · simp only [c3, Bool.false_eq_true, ↓reduceIte]; exact stateBogusComment_loc a b h hs hp
+  · intro h1 hn
+    rw [hs] at hp
+    have hty : ¬ IsName h1.tokType := by
+      unfold stateMarkupDeclarationOpen at hn
+      simp only [] at hn
+      split at hn
+      · rw [(stateDoctype_res h (hs ▸ hp) h1 hn).1]; exact not_name_doctype
+      · split at hn
+        · rename_i _ hc
+          have h7 : h.s.length - h.pos ≥ 7 := by
+            simp only [Bool.and_eq_true, decide_eq_true_eq] at hc; exact hc.1
+          rw [stateCData_ty { h with pos := h.pos + 7 } (by simp; omega) h1 hn]; exact not_name_text
+        · split at hn
+          · rename_i _ _ hc
+            have h2 : h.s.length - h.pos ≥ 2 := by
+              simp only [Bool.and_eq_true, decide_eq_true_eq] at hc; exact hc.1
+            rw [stateComment_ty { h with pos := h.pos + 2 } (by simp; omega) h1 hn]; exact not_name_comment
+          · rw [(stateBogusComment_res h (hs ▸ hp) h1 hn).1]; exact not_name_comment
+    refine ⟨fun hb => ?_, fun hst => absurd hst.1 hty⟩
+    unfold stateMarkupDeclarationOpen at hn ⊢
+    simp only [] at hn ⊢
+    simp only [re_s, re_pos, len_ins]
+    split at hn
+    · -- doctype on `a ++ b`: its `>` would lie inside the window
+      rename_i hc
+      obtain ⟨i, hpos, h62⟩ := (stateDoctype_res h (hs ▸ hp) h1 hn).2 hb.2
+      exfalso
+      have hi7 : i < 7 := by unfold Before at hb; omega
+      have := no_byte_doctype ((h.s.drop h.pos).take 7) i 62 (by rw [win_get _ _ _ _ hi7]; exact h62) (by decide)
+      simp [this] at hc
+    · split at hn
+      · -- CDATA: the section starts beyond the insertion point
+        exfalso
+        rename_i _ hc
+        have h7 : h.s.length - h.pos ≥ 7 := by
+          simp only [Bool.and_eq_true, decide_eq_true_eq] at hc; exact hc.1
+        obtain ⟨b', h', hr, _, _, hge, _⟩ := stateCData_good { h with pos := h.pos + 7 } (by simp; omega)
+        rw [hn] at hr
+        simp only [Except.ok.injEq, Prod.mk.injEq] at hr
+        obtain ⟨_, rfl⟩ := hr
+        unfold Before at hb; simp at hge; omega
+      · split at hn
+        · -- comment
+          rename_i _ _ hc
+          simp only [Bool.and_eq_true, decide_eq_true_eq, beq_iff_eq] at hc
+          obtain ⟨h2r, hw2⟩ := hc
+          by_cases h2 : h.pos + 2 ≤ a.length
+          · have hl1 := (stateComment_loc a b { h with pos := h.pos + 2 } hs (by simp only [hs, hl]; omega) h1 hn).1 hb
+            have hc0 : (a ++ b)[h.pos + 0]? = some 45 := by
+              have := congrArg (fun l => l[0]?) hw2
+              simp only [hs] at this
+              rw [win_get _ _ _ _ (by omega)] at this
+              simpa using this
+            obtain ⟨t1, t2⟩ := markup_re_tests a b h 0 45 (by omega) (by omega) hc0 (by decide) (by decide)
+            have t3 : ((((a ++ 0 :: b).drop h.pos).take 2) == [45, 45]) = true := by
+              rw [take_ins a b h.pos 2 h2, ← hs, hw2]; rfl
+            have r2' : decide ((a ++ b).length + 1 - h.pos ≥ 2) = true := by simp; omega
+            simp only [t1, t2, t3, r2', Bool.and_false, Bool.false_eq_true, ↓reduceIte, Bool.and_self]
+            exact hl1
+          · exfalso
+            obtain ⟨b', h', hr, _, _, hge, _⟩ := stateComment_good { h with pos := h.pos + 2 } (by simp; omega)
+            rw [hn] at hr
+            simp only [Except.ok.injEq, Prod.mk.injEq] at hr
+            obtain ⟨_, rfl⟩ := hr
+            unfold Before at hb; simp at hge; omega
+        · -- bogus comment: its `>` lies inside the window, before the insertion point
+          rename_i c1 c2 c3
+          obtain ⟨i, hpos, h62⟩ := (stateBogusComment_res h (hs ▸ hp) h1 hn).2 hb.2
+          have hl1 := (stateBogusComment_loc a b h hs (hs ▸ hp) h1 hn).1 hb
+          have him : h.pos + i + 1 < a.length := by unfold Before at hb; omega
+          rw [hs] at h62
+          obtain ⟨t1, t2⟩ := markup_re_tests a b h i 62 (by omega) (by omega) h62 (by decide) (by decide)
+          have t3 : (decide ((a ++ b).length + 1 - h.pos ≥ 2) && (((a ++ 0 :: b).drop h.pos).take 2) == [45, 45]) = false := by
+            cases hcmp : (((a ++ 0 :: b).drop h.pos).take 2) == [45, 45] with
+            | false => simp
+            | true =>
+              exfalso
+              have he : ((a ++ 0 :: b).drop h.pos).take 2 = [45, 45] := by simpa using hcmp
+              by_cases hi2 : i < 2
+              · have := congrArg (fun l => l[i]?) he
+                rw [win_get _ _ _ _ hi2, get_lt a b _ (by omega), h62] at this
+                have hi01 : i = 0 ∨ i = 1 := by omega
+                rcases hi01 with rfl | rfl <;> simp at this
+              · -- both bytes lie before the `>`: the same two bytes as on `a ++ b`
+                rw [take_ins a b h.pos 2 (by omega)] at he
+                apply c3
+                rw [hs, he]
+                simp only [beq_self_eq_true, Bool.and_true, decide_eq_true_eq]
+                omega
+          simp only [t1, t2, t3, Bool.and_false, Bool.false_eq_true, ↓reduceIte]
+          exact hl1
+
+/-! ### white space and slashes before an attribute name -/
+
+theorem banLoop_re (a b : Bytes) : ∀ (fuel fuel' : Nat) (h : H), h.s = a ++ b → h.pos ≤ h.s.length →
+    h.s.length - h.pos < fuel → h.s.length + 1 - h.pos < fuel' →
+    ∀ h' ch sl, banLoop h fuel = .ok (h', ch, sl) → h'.pos < a.length →
+      banLoop (re a b h) fuel' = .ok (re a b h', ch, sl) := by
+  intro fuel
+  induction fuel with
+  | zero => intro fuel' h _ _ hf; omega
+  | succ fuel ih =>
+    intro fuel' h hs hp hf hf' h' ch sl hb hlt
+    cases fuel' with
+    | zero => omega
+    | succ fuel' =>
+    have hl : (a ++ b).length = a.length + b.length := by simp
+    unfold banLoop at hb ⊢
+    by_cases hpl : h.pos < h.s.length
+    · have hpl' : (re a b h).pos < (re a b h).s.length := by simp only [re_pos, re_s, len_ins, ← hs]; omega
+      simp only [hpl, hpl', ↓reduceIte] at hb ⊢
+      obtain ⟨e1, e2, e3, e4, e5⟩ := skipWhite_spec h hp
+      -- the position after the white space is at most the final position
+      have hmono : (skipWhite h).1.pos ≤ h'.pos := by
+        generalize skipWhite h = sw at e1 e2 e3 e4 e5 hb
+        obtain ⟨h1, c⟩ := sw
+        simp only at e1 e2 e3 e4 e5 hb ⊢
+        cases c with
+        | none => simp only [Except.ok.injEq, Prod.mk.injEq] at hb; rw [← hb.1]; exact Nat.le_refl _
+        | some c =>
+          simp only [] at hb
+          split at hb
+          · split at hb
+            · split at hb
+              · obtain ⟨h2, ch2, sl2, hr, _, b2, _⟩ := banLoop_spec { h1 with pos := h1.pos + 1 } (by simp [e1]; have := getElem?_some_lt e4.symm; omega) fuel (by simp [e1]; omega)
+                rw [hr] at hb
+                simp only [Except.ok.injEq, Prod.mk.injEq] at hb
+                rw [← hb.1]; simp at b2; omega
+              · simp only [Except.ok.injEq, Prod.mk.injEq] at hb; rw [← hb.1]; simp
+            · simp only [Except.ok.injEq, Prod.mk.injEq] at hb; rw [← hb.1]; simp
+          · simp only [Except.ok.injEq, Prod.mk.injEq] at hb; rw [← hb.1]; exact Nat.le_refl _
+      rw [skipWhite_re a b h hs (by omega)]
+      generalize skipWhite h = sw at e1 e2 e3 e4 e5 hb hmono ⊢
+      obtain ⟨h1, c⟩ := sw
+      simp only at e1 e2 e3 e4 e5 hb hmono ⊢
+      have hs1 : h1.s = a ++ b := by rw [e1, hs]
+      cases c with
+      | none =>
+        simp only [Except.ok.injEq, Prod.mk.injEq] at hb ⊢
+        obtain ⟨rfl, rfl, rfl⟩ := hb
+        exact ⟨rfl, rfl, rfl⟩
+      | some c =>
+        have h1lt : h1.pos < h.s.length := getElem?_some_lt e4.symm
+        simp only [] at hb ⊢
+        by_cases c47 : (c == 47) = true
+        · simp only [c47, ↓reduceIte] at hb ⊢
+          simp only [re_s, re_pos]
+          cases hg : h1.s[h1.pos + 1]? with
+          | none =>
+            rw [hg] at hb
+            simp only [Except.ok.injEq, Prod.mk.injEq] at hb
+            exfalso
+            have hle : h1.s.length ≤ h1.pos + 1 := List.getElem?_eq_none_iff.mp hg
+            rw [hs1, hl] at hle
+            have : h'.pos = h1.pos + 1 := by rw [← hb.1]
+            omega
+          | some c2 =>
+            rw [hg] at hb
+            simp only [] at hb
+            by_cases c62 : (c2 != 62) = true
+            · simp only [c62, ↓reduceIte] at hb
+              obtain ⟨h2, ch2, sl2, hr, _, b2, _⟩ := banLoop_spec { h1 with pos := h1.pos + 1 } (by simp [e1]; omega) fuel (by simp [e1]; omega)
+              have hb' := hb
+              rw [hr] at hb'
+              simp only [Except.ok.injEq, Prod.mk.injEq] at hb'
+              have hp2 : h1.pos + 1 ≤ h'.pos := by rw [← hb'.1]; simpa using b2
+              have hg' : (a ++ 0 :: b)[h1.pos + 1]? = some c2 := by
+                rw [get_lt a b _ (by omega), ← hs1]; exact hg
+              rw [hg']
+              simp only [c62, ↓reduceIte]
+              exact ih fuel' { h1 with pos := h1.pos + 1 } hs1 (by simp [e1]; omega) (by simp [e1]; omega) (by simp [e1]; omega) h' ch sl hb hlt
+            · simp only [c62, Bool.false_eq_true, ↓reduceIte, Except.ok.injEq, Prod.mk.injEq] at hb
+              obtain ⟨rfl, rfl, rfl⟩ := hb
+              simp only at hlt
+              have hg' : (a ++ 0 :: b)[h1.pos + 1]? = some c2 := by
+                rw [get_lt a b _ (by omega), ← hs1]; exact hg
+              rw [hg']
+              simp only [c62, Bool.false_eq_true, ↓reduceIte]
+              rfl
+        · simp only [c47, Bool.false_eq_true, ↓reduceIte, Except.ok.injEq, Prod.mk.injEq] at hb ⊢
+          obtain ⟨rfl, rfl, rfl⟩ := hb
+          exact ⟨rfl, rfl, rfl⟩
+    · exfalso
+      simp only [hpl, ↓reduceIte, Except.ok.injEq, Prod.mk.injEq] at hb
+      have : h'.pos = h.pos := by rw [← hb.1]
+      rw [hs, hl] at hpl
+      omega
+
+/-- at or beyond the insertion point the self-closing state has nothing to say -/
+theorem sc_vac (a b : Bytes) (d : Nat) (h : H) (hp : h.pos ≤ h.s.length) (h1 : 1 ≤ h.pos) (hge : a.length ≤ h.pos)
+    (r' : M (Bool × H)) : Loc a b (stateSelfClosingStartTag d h) r' := by
+  cases d with
+  | zero => intro x hx; cases hx
+  | succ d =>
+    unfold stateSelfClosingStartTag
+    by_cases hg : h.pos ≥ h.s.length
+    · simp only [hg, ↓reduceIte, pure, Except.pure]; exact loc_false a b _ _
+    · have hlt : h.pos < h.s.length := by omega
+      simp only [hg, ↓reduceIte, at'_ok hlt, bind, Except.bind, pure, Except.pure]
+      split
+      · have h0 : ¬ (h.pos = 0) := by omega
+        simp only [h0, ↓reduceIte]
+        loc_far
+      · exact loc_vac a b h.pos 1 h _ _ ((sc_ban_ord d).2 h hp) hge
+
+theorem sc_ban_loc (a b : Bytes) : ∀ (d : Nat),
+    (∀ h : H, h.s = a ++ b → h.pos ≤ h.s.length → 1 ≤ h.pos →
+      Loc a b (stateSelfClosingStartTag d h) (stateSelfClosingStartTag d (re a b h))) ∧
+    (∀ h : H, h.s = a ++ b → h.pos ≤ h.s.length →
+      Loc a b (stateBeforeAttributeName d h) (stateBeforeAttributeName d (re a b h)))
+  | 0 => by
+    constructor
+    · intro h _ _ _ x hx; cases hx
+    · intro h _ _ x hx; cases hx
+  | d + 1 => by
+    obtain ⟨ihS, ihB⟩ := sc_ban_loc a b d
+    have hl : (a ++ b).length = a.length + b.length := by simp
+    constructor
+    · intro h hs hp h1
+      by_cases hm : h.pos < a.length
+      · unfold stateSelfClosingStartTag
+        have hlt : h.pos < h.s.length := by rw [hs, hl]; omega
+        have hg : ¬ h.pos ≥ h.s.length := by omega
+        have hg' : ¬ (re a b h).pos ≥ (re a b h).s.length := by simp only [re_pos, re_s, len_ins, ← hs]; omega
+        have hat : at' (re a b h).s (re a b h).pos = .ok h.s[h.pos] := by
+          unfold at'
+          simp only [re_s, re_pos, get_lt a b _ hm, ← hs, List.getElem?_eq_getElem hlt]
+        simp only [hg, hg', ↓reduceIte, at'_ok hlt, hat, bind, Except.bind, pure, Except.pure]
+        split
+        · have h0 : ¬ (h.pos = 0) := by omega
+          simp only [h0, re_pos, ↓reduceIte]
+          loc_same
+        · exact ihB h hs hp
+      · exact sc_vac a b (d + 1) h hp h1 (by omega) _
+    · intro h hs hp
+      unfold stateBeforeAttributeName
+      obtain ⟨h', ch, slash, hr, a1, a2, a3, a4, a5⟩ := banLoop_spec h hp (h.s.length + 1) (by omega)
+      have hs' : h'.s = a ++ b := by rw [a1, hs]
+      by_cases hm : h'.pos < a.length
+      · have hr' := banLoop_re a b (h.s.length + 1) ((re a b h).s.length + 1) h hs hp (by omega)
+          (by simp only [re_s, len_ins, ← hs]; omega) h' ch slash hr hm
+        simp only [hr, hr', bind, Except.bind]
+        cases slash with
+        | true =>
+          simp only [↓reduceIte]
+          obtain ⟨b1, _⟩ := a4 rfl
+          exact ihS h' hs' (by rw [a1]; exact a3) (by omega)
+        | false =>
+          simp only [Bool.false_eq_true, ↓reduceIte]
+          obtain ⟨c1, _⟩ := a5 rfl
+          cases ch with
+          | none => exact loc_false a b _ _
+          | some c =>
+            have hlt : h'.pos < h.s.length := getElem?_some_lt c1.symm
+            have hle : h'.pos ≤ (a ++ b).length := by rw [← hs]; omega
+            simp only []
+            split
+            · simp only [re_s, re_pos, hs', offFrom_re a b h'.pos hle, offFrom_ok hle, bind, Except.bind, pure, Except.pure]
+              loc_same
+            · exact stateAttributeName_loc a b h' hs' hm
+      · simp only [hr, bind, Except.bind]
+        cases slash with
+        | true =>
+          simp only [↓reduceIte]
+          obtain ⟨b1, _⟩ := a4 rfl
+          exact sc_vac a b d h' (by rw [a1]; exact a3) (by omega) (by omega) _
+        | false =>
+          simp only [Bool.false_eq_true, ↓reduceIte]
+          obtain ⟨c1, _⟩ := a5 rfl
+          cases ch with
+          | none => exact loc_false a b _ _
+          | some c =>
+            have hlt : h'.pos < h.s.length := getElem?_some_lt c1.symm
+            simp only []
+            split
+            · simp only [offFrom_ok (show h'.pos ≤ h'.s.length by rw [a1]; omega), bind, Except.bind, pure, Except.pure]
+              loc_far
+            · exact loc_vac a b h'.pos 1 h' _ _ (stateAttributeName_ord h' (by rw [a1]; exact hlt)) (by omega)
+
+theorem stateAfterAttributeName_loc (a b : Bytes) (h : H) (hs : h.s = a ++ b) (hp : h.pos ≤ h.s.length) :
+    Loc a b (stateAfterAttributeName h) (stateAfterAttributeName (re a b h)) := by
+  obtain ⟨e1, e2, e3, e4, e5⟩ := skipWhite_spec h hp
+  unfold stateAfterAttributeName
+  by_cases hlt : (skipWhite h).1.pos < a.length
+  · rw [skipWhite_re a b h hs hlt]
+    generalize skipWhite h = sw at e1 e2 e3 e4 e5 hlt ⊢
+    obtain ⟨h1, ch⟩ := sw
+    simp only at e1 e2 e3 e4 e5 hlt ⊢
+    have hs1 : h1.s = a ++ b := by rw [e1, hs]
+    cases ch with
+    | none => exact loc_false a b _ _
+    | some c =>
+      have hlt1 : h1.pos < h1.s.length := by rw [e1]; exact getElem?_some_lt e4.symm
+      simp only []
+      split
+      · exact (sc_ban_loc a b callDepth).1 { h1 with pos := h1.pos + 1 } hs1 (by simp; omega) (by simp)
+      · split
+        · exact stateBeforeAttributeValue_loc a b { h1 with pos := h1.pos + 1 } hs1 (by simp; omega)
+        · split
+          · exact stateTagNameClose_loc a b h1 hs1 hlt1
+          · exact stateAttributeName_loc a b h1 hs1 hlt
+  · generalize skipWhite h = sw at e1 e2 e3 e4 e5 hlt ⊢
+    obtain ⟨h1, ch⟩ := sw
+    simp only at e1 e2 e3 e4 e5 hlt ⊢
+    cases ch with
+    | none => exact loc_false a b _ _
+    | some c =>
+      have hlt1 : h1.pos < h1.s.length := by rw [e1]; exact getElem?_some_lt e4.symm
+      simp only []
+      split
+      · exact sc_vac a b callDepth { h1 with pos := h1.pos + 1 } (by simp; omega) (by simp) (by simp; omega) _
+      · split
+        · exact loc_vac a b (h1.pos + 1) 2 { h1 with pos := h1.pos + 1 } _ _
+            (stateBeforeAttributeValue_ord { h1 with pos := h1.pos + 1 } (by simp; omega)) (by omega)
+        · split
+          · exact loc_vac a b h1.pos 1 h1 _ _ (stateTagNameClose_ord h1 hlt1) (by omega)
+          · exact loc_vac a b h1.pos 1 h1 _ _ (stateAttributeName_ord h1 hlt1) (by omega)
+
+theorem stateAfterAttributeValueQuotedState_loc (a b : Bytes) (h : H) (hs : h.s = a ++ b) (hp : h.pos ≤ h.s.length) :
+    Loc a b (stateAfterAttributeValueQuotedState h) (stateAfterAttributeValueQuotedState (re a b h)) := by
+  have hl : (a ++ b).length = a.length + b.length := by simp
+  unfold stateAfterAttributeValueQuotedState
+  by_cases hg : h.pos ≥ h.s.length
+  · simp only [hg, ↓reduceIte, pure, Except.pure]; exact loc_false a b _ _
+  · have hlt : h.pos < h.s.length := by omega
+    by_cases hm : h.pos < a.length
+    · have hg' : ¬ (re a b h).pos ≥ (re a b h).s.length := by simp only [re_pos, re_s, len_ins, ← hs]; omega
+      have hat : at' (re a b h).s (re a b h).pos = .ok h.s[h.pos] := by
+        unfold at'
+        simp only [re_s, re_pos, get_lt a b _ hm, ← hs, List.getElem?_eq_getElem hlt]
+      have hle : h.pos ≤ (a ++ b).length := by rw [← hs]; omega
+      simp only [hg, hg', ↓reduceIte, at'_ok hlt, hat, bind, Except.bind, pure, Except.pure]
+      split
+      · exact (sc_ban_loc a b callDepth).2 { h with pos := h.pos + 1 } hs (by simp; omega)
+      · split
+        · exact (sc_ban_loc a b callDepth).1 { h with pos := h.pos + 1 } hs (by simp; omega) (by simp)
+        · split
+          · simp only [re_s, re_pos, hs, offFrom_re a b h.pos hle, offFrom_ok hle, bind, Except.bind, pure, Except.pure]
+            loc_same
+          · exact (sc_ban_loc a b callDepth).2 h hs hp
+    · simp only [hg, ↓reduceIte, at'_ok hlt, bind, Except.bind, pure, Except.pure]
+      split
+      · exact loc_vac a b (h.pos + 1) 1 { h with pos := h.pos + 1 } _ _
+          ((sc_ban_ord callDepth).2 { h with pos := h.pos + 1 } (by simp; omega)) (by omega)
+      · split
+        · exact sc_vac a b callDepth { h with pos := h.pos + 1 } (by simp; omega) (by simp) (by simp; omega) _
+        · split
+          · simp only [offFrom_ok hp, bind, Except.bind, pure, Except.pure]
+            loc_far
+          · exact loc_vac a b h.pos 1 h _ _ ((sc_ban_ord callDepth).2 h hp) (by omega)
+
+/-! ### element content: `<`, `</`, text -/
+
+theorem data_trio_loc (a b : Bytes) : ∀ (d : Nat),
+    (∀ h : H, h.s = a ++ b → h.pos ≤ h.s.length → Loc a b (stateEndTagOpen d h) (stateEndTagOpen d (re a b h))) ∧
+    (∀ h : H, h.s = a ++ b → h.pos ≤ h.s.length → 1 ≤ h.pos → Loc a b (stateTagOpen d h) (stateTagOpen d (re a b h))) ∧
+    (∀ h : H, h.s = a ++ b → h.pos ≤ h.s.length → Loc a b (stateData d h) (stateData d (re a b h)))
+  | 0 => by
+    refine ⟨?_, ?_, ?_⟩
+    · intro h _ _ x hx; cases hx
+    · intro h _ _ _ x hx; cases hx
+    · intro h _ _ x hx; cases hx
+  | d + 1 => by
+    obtain ⟨ihE, ihT, ihD⟩ := data_trio_loc a b d
+    obtain ⟨oE, oT, oD⟩ := data_trio_ord d
+    have hl : (a ++ b).length = a.length + b.length := by simp
+    refine ⟨?_, ?_, ?_⟩
+    · intro h hs hp
+      unfold stateEndTagOpen
+      by_cases hg : h.pos ≥ h.s.length
+      · simp only [hg, ↓reduceIte, pure, Except.pure]; exact loc_false a b _ _
+      · have hlt : h.pos < h.s.length := by omega
+        by_cases hm : h.pos < a.length
+        · have hg' : ¬ (re a b h).pos ≥ (re a b h).s.length := by simp only [re_pos, re_s, len_ins, ← hs]; omega
+          have hat : at' (re a b h).s (re a b h).pos = .ok h.s[h.pos] := by
+            unfold at'
+            simp only [re_s, re_pos, get_lt a b _ hm, ← hs, List.getElem?_eq_getElem hlt]
+          simp only [hg, hg', ↓reduceIte, at'_ok hlt, hat, bind, Except.bind, pure, Except.pure]
+          split
+          · exact ihD h hs hp
+          · split
+            · exact stateTagName_loc a b h hs hm
+            · exact stateBogusComment_loc a b { h with isClose := false } hs hp
+        · simp only [hg, ↓reduceIte, at'_ok hlt, bind, Except.bind, pure, Except.pure]
+          split
+          · exact loc_vac a b h.pos 1 h _ _ (oD h hp) (by omega)
+          · split
+            · exact loc_vac a b h.pos 2 h _ _ (stateTagName_ord h hlt) (by omega)
+            · exact loc_vac a b h.pos 1 { h with isClose := false } _ _ (stateBogusComment_ord { h with isClose := false } hp) (by omega)
+    · intro h hs hp h1
+      unfold stateTagOpen
+      by_cases hg : h.pos ≥ h.s.length
+      · simp only [hg, ↓reduceIte, pure, Except.pure]; exact loc_false a b _ _
+      · have hlt : h.pos < h.s.length := by omega
+        have h0 : (h.pos == 0) = false := by simp; omega
+        by_cases hm : h.pos < a.length
+        · have hg' : ¬ (re a b h).pos ≥ (re a b h).s.length := by simp only [re_pos, re_s, len_ins, ← hs]; omega
+          have hat : at' (re a b h).s (re a b h).pos = .ok h.s[h.pos] := by
+            unfold at'
+            simp only [re_s, re_pos, get_lt a b _ hm, ← hs, List.getElem?_eq_getElem hlt]
+          simp only [hg, hg', ↓reduceIte, at'_ok hlt, hat, bind, Except.bind, pure, Except.pure]
+          split
+          · exact stateMarkupDeclarationOpen_loc a b { h with pos := h.pos + 1 } hs (by simp; omega)
+          · split
+            · exact ihE { h with pos := h.pos + 1, isClose := true } hs (by simp; omega)
+            · split
+              · exact stateBogusComment_loc a b { h with pos := h.pos + 1 } hs (by simp; omega)
+              · split
+                · exact stateBogusComment2_loc a b { h with pos := h.pos + 1 } hs (by simp; omega)
+                · split
+                  · exact stateTagName_loc a b h hs hm
+                  · split
+                    · exact stateTagName_loc a b h hs hm
+                    · simp only [h0, re_pos, Bool.false_eq_true, ↓reduceIte]
+                      loc_same
+        · simp only [hg, ↓reduceIte, at'_ok hlt, bind, Except.bind, pure, Except.pure]
+          split
+          · exact loc_vac a b (h.pos + 1) 1 { h with pos := h.pos + 1 } _ _
+              (stateMarkupDeclarationOpen_ord { h with pos := h.pos + 1 } (by simp; omega)) (by omega)
+          · split
+            · exact loc_vac a b (h.pos + 1) 2 { h with pos := h.pos + 1, isClose := true } _ _
+                (oE { h with pos := h.pos + 1, isClose := true } (by simp; omega)) (by omega)
+            · split
+              · exact loc_vac a b (h.pos + 1) 1 { h with pos := h.pos + 1 } _ _
+                  (stateBogusComment_ord { h with pos := h.pos + 1 } (by simp; omega)) (by omega)
+              · split
+                · exact loc_vac a b (h.pos + 1) 1 { h with pos := h.pos + 1 } _ _
+                    (stateBogusComment2_ord { h with pos := h.pos + 1 } (by simp; omega)) (by omega)
+                · split
+                  · exact loc_vac a b h.pos 2 h _ _ (stateTagName_ord h hlt) (by omega)
+                  · split
+                    · exact loc_vac a b h.pos 2 h _ _ (stateTagName_ord h hlt) (by omega)
+                    · simp only [h0, Bool.false_eq_true, ↓reduceIte]
+                      loc_far
+    · intro h hs hp
+      have hle : h.pos ≤ (a ++ b).length := by rw [← hs]; exact hp
+      unfold stateData
+      simp only [re_s, re_pos, offFrom_re a b h.pos hle, offFrom_ok hp, bind, Except.bind, pure, Except.pure]
+      cases hi : indexByte (h.s.drop h.pos) 60 with
+      | none =>
+        simp only []
+        intro h1 hn
+        simp only [Except.ok.injEq, Prod.mk.injEq] at hn
+        obtain ⟨_, rfl⟩ := hn
+        exact ⟨fun hb => absurd rfl hb.2, fun hst => absurd hst.1 not_name_text⟩
+      | some i =>
+        simp only []
+        by_cases hi0 : i = 0
+        · subst hi0
+          simp only [beq_self_eq_true, ↓reduceIte]
+          by_cases hm : h.pos < a.length
+          · have hi' : indexByte ((a ++ 0 :: b).drop h.pos) 60 = some 0 := by
+              rw [hs] at hi; exact indexByte_ins a b 60 h.pos 0 hi (by omega)
+            rw [hi']
+            simp only [beq_self_eq_true, ↓reduceIte]
+            exact ihT (emit h h.pos 0 .dataText (h.pos + 0 + 1) .tagOpen) hs
+              (by have := indexByte_lt hi; simp at this; simp [emit]; omega) (by simp [emit])
+          · exact loc_vac a b h.pos 1 (emit h h.pos 0 .dataText (h.pos + 0 + 1) .tagOpen) _ _
+              (by have := oT (emit h h.pos 0 .dataText (h.pos + 0 + 1) .tagOpen)
+                    (by have := indexByte_lt hi; simp at this; simp [emit]; omega) (by simp [emit])
+                  simpa [emit] using this) (by omega)
+        · have hb0 : (i == 0) = false := by simp [hi0]
+          simp only [hb0, Bool.false_eq_true, ↓reduceIte]
+          intro h1 hn
+          simp only [Except.ok.injEq, Prod.mk.injEq, true_and] at hn; subst hn
+          refine ⟨fun hb => ?_, fun hst => absurd hst.1 not_name_text⟩
+          have hlt : h.pos + i < a.length := by unfold Before at hb; simp [emit] at hb; omega
+          rw [hs] at hi
+          rw [indexByte_ins a b 60 h.pos i hi hlt]
+          simp only [hb0, Bool.false_eq_true, ↓reduceIte]
+          rfl
+
+/-- **one step of the tokenizer, with and without the inserted NUL** -/
+theorem next_loc (a b : Bytes) (h : H) (hs : h.s = a ++ b) (hi : Inv h) (h2 : h.state = .tagOpen → 1 ≤ h.pos) :
+    Loc a b (next h) (next (re a b h)) := by
+  obtain ⟨hp, i1, i2, i3⟩ := hi
+  unfold next
+  simp only [re_state]
+  cases hst : h.state with
+  | eof => exact loc_false a b _ _
+  | data => exact (data_trio_loc a b dataDepth).2.2 h hs hp
+  | tagOpen => exact (data_trio_loc a b dataDepth).2.1 h hs hp (h2 hst)
+  | beforeAttrName => exact (sc_ban_loc a b callDepth).2 h hs hp
+  | selfClosing => exact (sc_ban_loc a b callDepth).1 h hs hp (i1 hst)
+  | tagNameClose => exact stateTagNameClose_loc a b h hs (i2 hst)
+  | afterAttrName => exact stateAfterAttributeName_loc a b h hs hp
+  | beforeAttrValue => exact stateBeforeAttributeValue_loc a b h hs hp
+  | afterAttrValueQuoted => exact stateAfterAttributeValueQuotedState_loc a b h hs hp
+  | valSingle => exact stateAttributeValueQuote_loc 39 a b h hs (Or.inr (i3 (Or.inl hst)))
+  | valDouble => exact stateAttributeValueQuote_loc 34 a b h hs (Or.inr (i3 (Or.inr (Or.inl hst))))
+  | valBack => exact stateAttributeValueQuote_loc 96 a b h hs (Or.inr (i3 (Or.inr (Or.inr hst))))
+
 end LibInj.H5
